@@ -321,15 +321,29 @@ theorem save_durable (data : Bytes) (prev : Option Bytes) (kk : Nat) (g : Bytes)
     finalContent prev (crashView (run {} (genMain.map (conc data 0))) kk g) = some data :=
   durable_of_order genMain gen_durableAtEnd data prev 0 kk g
 
-/-- **tmp_not_listed**: a name made by `os.CreateTemp(dir, base+"-tmp-")` never parses as an ID
-    (it contains `-`, which `hex.DecodeString` rejects), so `Repository.List` skips it — for every
-    base name and every random suffix. -/
-theorem tmp_not_listed (base suffix : List Char) : parsesAsID (tempName base suffix) = false := by
+/-- General lemma: a name that contains, anywhere, a character that is no hex digit never parses
+    as an ID — for every base name, every infix with such a character and every suffix. -/
+theorem infix_not_id (base inf suffix : List Char) (h : inf.any (fun c => !isHex c) = true) :
+    parsesAsID (tempName base inf suffix) = false := by
   unfold parsesAsID tempName
-  have : (base ++ "-tmp-".toList ++ suffix).all isHex = false := by
+  obtain ⟨c, hc, hx⟩ := List.any_eq_true.mp h
+  have : (base ++ inf ++ suffix).all isHex = false := by
     rw [List.all_eq_false]
-    exact ⟨'-', by simp, by decide⟩
+    exact ⟨c, by simp [hc], by simpa using hx⟩
   rw [this]; simp
+
+/-- the infix of temporary names in the current source (regenerated `literals` fact) -/
+def genInfix : List Char := (tmpInfixOf Restic.Gen.localSave_literals).getD []
+
+/-- the regenerated infix exists and contains a character that is no hex digit (tie T1) -/
+theorem gen_infix_not_hex :
+    (tmpInfixOf Restic.Gen.localSave_literals).isSome = true ∧ genInfix.any (fun c => !isHex c) = true := by decide
+
+/-- **tmp_not_listed**: a name made by `os.CreateTemp(dir, base + <infix of the current source>)`
+    never parses as an ID, so `Repository.List` skips it — for every base name and every random
+    suffix. -/
+theorem tmp_not_listed (base suffix : List Char) : parsesAsID (tempName base genInfix suffix) = false :=
+  infix_not_id base genInfix suffix gen_infix_not_hex.2
 
 /-! ## non-vacuity (examples) -/
 
